@@ -25,8 +25,50 @@ def const_value(prog, t):
     return None
 
 
+def _accept_interval(prog, cond, positive):
+    """Interval of `v` (parameter 0) for which cond is true (positive) / false (not positive); None if it is not an
+    interval or the condition has an unknown form.  +-inf as None bounds."""
+    INF = float("inf")
+    if cond.k == "un" and cond.a[0] == "Not":
+        return _accept_interval(prog, cond.a[1], not positive)
+    if cond.k == "logic":
+        a = _accept_interval(prog, cond.a[1], positive)
+        b = _accept_interval(prog, cond.a[2], positive)
+        conj = (cond.a[0] == "And") == positive      # And/true and Or/false are conjunctions of the parts
+        if not conj or a is None or b is None:
+            return None
+        return (max(a[0], b[0]), min(a[1], b[1]))
+    if cond.k == "bin" and cond.a[0] in ("Lt", "Le", "Gt", "Ge"):
+        op, a, b = cond.a
+        av, bv = const_value(prog, a), const_value(prog, b)
+        if b.k == "param" and av is not None and a.k != "param":
+            op = {"Lt": "Gt", "Le": "Ge", "Gt": "Lt", "Ge": "Le"}[op]
+            a, b, av, bv = b, a, bv, av
+        if not (a.k == "param" and a.a[0] == 0 and bv is not None):
+            return None
+        if not positive:
+            op = {"Lt": "Ge", "Le": "Gt", "Gt": "Le", "Ge": "Lt"}[op]
+        return {"Lt": (-INF, bv - 1), "Le": (-INF, bv), "Gt": (bv + 1, INF), "Ge": (bv, INF)}[op]
+    if cond.k == "call" and cond.a[0].endswith("::contains") and "ops::range::Range" in cond.a[0] and len(cond.a) == 3 and positive:
+        r, v = cond.a[1], cond.a[2]
+        if not (v.k == "param" and v.a[0] == 0):
+            return None
+        lo = hi = None
+        if r.k == "adt" and r.a[1] == "Range":
+            fd = dict(r.a[2])
+            lo, hi = const_value(prog, fd.get("start")) if fd.get("start") is not None else None, const_value(prog, fd.get("end")) if fd.get("end") is not None else None
+            if hi is not None:
+                hi -= 1
+        elif r.k == "call" and r.a[0].endswith("RangeInclusive::<Idx>::new") and len(r.a) == 3:
+            lo, hi = const_value(prog, r.a[1]), const_value(prog, r.a[2])
+        if lo is None or hi is None:
+            return None
+        return (lo, hi)
+    return None
+
+
 def range_validators(prog, ev):
-    """Local fns (i64) -> Result<i64, _> that return Ok(v) only when MIN <= v <= MAX for constants within I-JSON.
+    """Local fns (i64) -> Result<i64, _> that return Ok(v) exactly when lo <= v <= hi for constants lo, hi.
     -> {path: (lo, hi)}"""
     out = {}
     for p, it in prog.items.items():
@@ -35,41 +77,19 @@ def range_validators(prog, ev):
         if it.get("inputs_s") != ["i64"] or not it.get("output_s", "").startswith("core::result::Result<i64,"):
             continue
         t = ev.summary(p)
-        v = Tm("param", (0, None))
         if t.k != "if":
             continue
         cond, th, el = t.a
-        okret = el.k == "adt" and el.a[1] == "Ok" and el.a[2][0][1].k == "param" and th.k == "adt" and th.a[1] == "Err"
-        if not okret:
+        isok = lambda x: x.k == "adt" and x.a[1] == "Ok" and x.a[2][0][1].k == "param"
+        iserr = lambda x: x.k == "adt" and x.a[1] == "Err"
+        if isok(el) and iserr(th):
+            iv = _accept_interval(prog, cond, False)
+        elif isok(th) and iserr(el):
+            iv = _accept_interval(prog, cond, True)
+        else:
             continue
-        lo = hi = None
-        parts = [cond.a[1], cond.a[2]] if cond.k == "logic" and cond.a[0] == "Or" else [cond]
-        for c in parts:
-            if c.k != "bin":
-                continue
-            op, a, b = c.a
-            av, bv = const_value(prog, a), const_value(prog, b)
-            # rejecting conditions: v > MAX | v >= MAX+1 | MAX < v ; v < MIN | MIN > v
-            if a.k == "param" and bv is not None:
-                if op == "Gt":
-                    hi = bv
-                elif op == "Ge":
-                    hi = bv - 1
-                elif op == "Lt":
-                    lo = bv
-                elif op == "Le":
-                    lo = bv + 1
-            elif b.k == "param" and av is not None:
-                if op == "Lt":
-                    hi = av
-                elif op == "Le":
-                    hi = av - 1
-                elif op == "Gt":
-                    lo = av
-                elif op == "Ge":
-                    lo = av + 1
-        if lo is not None and hi is not None:
-            out[p] = (lo, hi)
+        if iv is not None and iv[0] != -float("inf") and iv[1] != float("inf"):
+            out[p] = (int(iv[0]), int(iv[1]))
     return out
 
 
